@@ -5,8 +5,8 @@ import (
 	"os"
 	"sort"
 	"sync"
-
-	"github.com/free5gc/go-upf/internal/forwarder"
+	"syscall"
+	"time"
 
 	"github.com/free5gc/go-upf/internal/verif/vh"
 )
@@ -23,9 +23,9 @@ func init() {
 var profiles = map[string]vh.GenProfile{
 	"C01": {MinOps: 5, MaxOps: 14, MaxNodes: 2, MaxSess: 3, Negative: 2, Reports: 2, RuleChurn: 8, Reassoc: 2, Takeover: true, LateAnswers: true},
 	"C04": {MinOps: 10, MaxOps: 40, MaxNodes: 3, MaxSess: 12, Negative: 8, Reports: 3, RuleChurn: 3, Reassoc: 3, SeidClasses: true, Takeover: true, TxTimeouts: true, LateAnswers: true, Churn: true},
-	"C05": {MinOps: 10, MaxOps: 35, MaxNodes: 3, MaxSess: 8, Negative: 3, Reports: 4, RuleChurn: 8, Reassoc: 3, ExtraSock: true, Takeover: true, Dups: 2, DLDR: true, TxTimeouts: true, LateAnswers: true},
+	"C05": {MinOps: 10, MaxOps: 35, MaxNodes: 3, MaxSess: 8, Negative: 3, Reports: 4, RuleChurn: 8, Reassoc: 3, ExtraSock: true, Takeover: true, Dups: 2, DLDR: true, TxTimeouts: true, LateAnswers: true, Ticks: true},
 	"C08": {MinOps: 8, MaxOps: 30, MaxNodes: 3, MaxSess: 6, Negative: 10, Reports: 2, RuleChurn: 4, Reassoc: 2, ExtraSock: true, Takeover: true, Dups: 5, Churn: true},
-	"C11": {MinOps: 10, MaxOps: 40, MaxNodes: 2, MaxSess: 4, Negative: 1, Reports: 10, RuleChurn: 8, Reassoc: 1, NoDupCreate: true, URRHeavy: true, TxTimeouts: true},
+	"C11": {MinOps: 10, MaxOps: 40, MaxNodes: 2, MaxSess: 4, Negative: 1, Reports: 10, RuleChurn: 8, Reassoc: 1, NoDupCreate: true, URRHeavy: true, TxTimeouts: true, Ticks: true},
 	"C12": {MinOps: 8, MaxOps: 30, MaxNodes: 1, MaxSess: 1, Negative: 0, Reports: 1, RuleChurn: 14, Reassoc: 0, NoDupCreate: true, URRHeavy: true, OneSession: true},
 }
 
@@ -254,6 +254,8 @@ func runHist(res *vh.Result, prop string) {
 		res.Count("report_requests_given_up_after_all_retries(steps)", int64(an.TxTimeouts))
 		res.Count("report_request_retransmissions_seen", int64(an.Retrans))
 		res.Count("late_answers_to_report_requests", int64(an.LateAnswers))
+		res.Count("periodic_ticks_on_the_real_driver", int64(an.Ticks))
+		res.Count("periodic_reports_from_ticks", int64(an.PeriodicReports))
 		if i < 2 {
 			res.Sample(map[string]interface{}{"history": h.Summary(), "ops": h.Ops})
 		}
@@ -310,13 +312,33 @@ func nontrivial(prop string, tr *vh.Trace, an *vh.Analyzer) bool {
 
 // newFullRunner: histories on the real gtp5g driver over the simulated kernel (rule table = the kernel's)
 func newFullRunner(extraSock bool) *vh.Runner {
-	return &vh.Runner{ExtraSock: extraSock, NewDriver: func() (forwarder.Driver, func() map[vh.RuleKey]int, func()) {
+	return &vh.Runner{ExtraSock: extraSock, NewDriver: func() *vh.DriverKit {
 		wg := &sync.WaitGroup{}
 		d, err := vh.NewSimDriver(vh.SimDriverOpts{WG: wg})
 		if err != nil {
 			panic("sim driver: " + err.Error())
 		}
-		return d.G, d.K.Table, func() { d.Close(); wg.Wait() }
+		table := func() map[vh.RuleKey]int {
+			t := d.K.Table()
+			delete(t, vh.RuleKey{Kind: "URR", SEID: vh.SentSEID, ID: uint64(vh.SentURR)}) // the barrier's own URR
+			return t
+		}
+		refuse := func(kind string, on bool) {
+			cmd := map[string]uint8{"PDR": vh.KCmdDelPDR, "FAR": vh.KCmdDelFAR, "QER": vh.KCmdDelQER, "URR": vh.KCmdDelURR, "BAR": vh.KCmdDelBAR}[kind]
+			e := syscall.Errno(0)
+			if on {
+				e = syscall.ENOMEM
+			}
+			d.K.SetFailCmd(cmd, e)
+		}
+		return &vh.DriverKit{Driver: d.G, Table: table, Cleanup: func() { d.Close(); wg.Wait() }, Attach: d.HandleReport, Refuse: refuse,
+			Tick: func(p time.Duration) bool {
+				if !d.PerioBarrier() {
+					return false
+				}
+				d.G.VerifPerio().VerifInjectTick(p)
+				return d.PerioBarrier()
+			}}
 	}}
 }
 
